@@ -32,6 +32,8 @@ pub struct World {
 	pub blocked_while_holding: bool,
 	/// number of raw operations issued so far
 	pub ops: u8,
+	/// record the trace (off by default: a write at a symbolic index is expensive for CBMC)
+	pub trace_on: bool,
 	/// (lock id, operation) of the first TRACE_CAP raw operations
 	pub trace: [(u8, u8); TRACE_CAP],
 	/// interference budget: how many more times the environment may grab a free lock
@@ -60,6 +62,7 @@ impl World {
 			blocking_issued: false,
 			blocked_while_holding: false,
 			ops: 0,
+			trace_on: false,
 			trace: [(0, 0); TRACE_CAP],
 			env_budget: 0,
 			interfered: 0,
@@ -131,9 +134,11 @@ impl VState {
 
 	fn log(&self, op: u8) {
 		let w = w();
-		let i = w.ops as usize;
-		if i < TRACE_CAP {
-			w.trace[i] = (self.id.get(), op);
+		if w.trace_on {
+			let i = w.ops as usize;
+			if i < TRACE_CAP {
+				w.trace[i] = (self.id.get(), op);
+			}
 		}
 		w.ops += 1;
 	}
@@ -167,7 +172,7 @@ impl VState {
 	pub fn lock_x(&self) {
 		self.log(OP_LOCK_X);
 		// a thread must never wait for a lock it holds itself (C01, last sentence)
-		assert!(self.mine.get() == NONE, "O_no_self_wait: blocking exclusive request on a lock this thread holds");
+		assert!(self.mine.get() == NONE, "C01_no_self_wait: blocking exclusive request on a lock this thread holds");
 		self.note_blocking();
 		// the environment eventually releases (lock_api liveness, assumed)
 		self.other.set(NONE);
@@ -193,7 +198,7 @@ impl VState {
 	pub fn unlock_x(&self) {
 		self.log(OP_UNLOCK_X);
 		// C05: never release a lock the calling thread does not hold, and only in its mode
-		assert!(self.mine.get() == EXCL, "O_release_matches_hold: exclusive release of a lock not held exclusively by this thread");
+		assert!(self.mine.get() == EXCL, "C05_release_matches_hold: exclusive release of a lock not held exclusively by this thread");
 		self.mine.set(NONE);
 		self.rel_x.set(self.rel_x.get() + 1);
 		w().held -= 1;
@@ -201,7 +206,7 @@ impl VState {
 
 	pub fn lock_s(&self) {
 		self.log(OP_LOCK_S);
-		assert!(self.mine.get() == NONE, "O_no_self_wait: blocking shared request on a lock this thread holds");
+		assert!(self.mine.get() == NONE, "C01_no_self_wait: blocking shared request on a lock this thread holds");
 		self.note_blocking();
 		if self.other.get() == EXCL {
 			self.other.set(NONE);
@@ -229,7 +234,7 @@ impl VState {
 	pub fn unlock_s(&self) {
 		self.log(OP_UNLOCK_S);
 		let m = self.mine.get();
-		assert!(m != NONE && m != EXCL, "O_release_matches_hold: shared release of a lock not held shared by this thread");
+		assert!(m != NONE && m != EXCL, "C05_release_matches_hold: shared release of a lock not held shared by this thread");
 		self.mine.set(m - 1);
 		self.rel_s.set(self.rel_s.get() + 1);
 		w().held -= 1;
